@@ -275,6 +275,37 @@ mod vh_comm {
     comm_harness!(h_comm_trace_oe, trace_case, false, true, true, 0, 4);
     comm_harness!(h_comm_trace_o, trace_case, false, true, false, 0, 4);
     comm_harness!(h_comm_trace_i, trace_case, true, false, false, 2, 4);
+    // empty input on a piped stdin: stdin must still be closed (end-of-file for the child)
+    comm_harness!(h_comm_trace_io0, trace_case, true, true, false, 0, 4);
+
+    /// An input far above PIPE_BUF (9000 concrete bytes): every write chunk must stay
+    /// within PIPE_BUF, or the write after POLLOUT can block.
+    #[kani::proof]
+    fn h_comm_bigwrite() {
+        mk::link_model();
+        unsafe {
+            mk::reset();
+            mk::init_std_fds();
+            mc::ENABLED = true;
+            mc::STEP_BUDGET = 3;
+            mc::open_stream(IN, 3, 0);
+            mc::open_stream(OUT, 4, 1);
+            mc::S[IN].buffered = 0;
+            mc::S[IN].total_in = 0;
+            mc::S[IN].total_out = 0;
+            mc::S[IN].peer_open = true;
+            mc::IN_BASE = 0;
+            mc::INPUT_LEN = 9000;
+            mc::INPUT_CHECK = false;
+            mc::XFER_MAX = 8192;
+            let c = communicate(Some(File::from_raw_fd(3)), Some(File::from_raw_fd(4)), None, Some(vec![7u8; 9000]));
+            let mut ex = Ex { c, use_in: true, use_out: true, use_err: false };
+            let r = ex.c.read();
+            kani::cover!(mc::S[IN].total_in > 0, "COVER/big-chunk-written");
+            std::mem::forget(r);
+            finish(ex);
+        }
+    }
     comm_harness!(h_comm_step_ioe, step_case, true, true, true, 2, 3);
     comm_harness!(h_comm_step_oe, step_case, false, true, true, 0, 3);
     comm_harness!(h_comm_limit_oe, limit_case, false, true, true, 0, 4);
@@ -295,17 +326,39 @@ mod vh_comm {
     time_harness!(h_comm_time_io, true, true, false, 1, 3, false, false, false);
     time_harness!(h_comm_time_big, false, true, false, 0, 3, true, false, false);
     time_harness!(h_comm_time_resume, false, true, false, 0, 4, false, false, true);
+    time_harness!(h_comm_time_resume_in, true, true, false, 2, 4, false, false, true);
     time_harness!(h_comm_late_kf, false, true, false, 0, 4, false, true, false);
 
-    /// from_utf8_lossy(v) == String::from_utf8_lossy(&v) for every v of up to 4 bytes
-    #[kani::proof]
-    fn h_utf8_lossy() {
+    /// from_utf8_lossy(v) == String::from_utf8_lossy(&v) for every v of n bytes (n concrete:
+    /// a symbolic length exhausts the SAT back end)
+    pub fn utf8_case(n: usize) {
         let b: [u8; 4] = kani::any();
-        let n: usize = kani::any();
-        kani::assume(n <= 4);
         let v = b[..n].to_vec();
         let want: String = String::from_utf8_lossy(&b[..n]).into_owned();
         let got = from_utf8_lossy(v);
-        assert!(got == want, "C02/text-is-lossy-decoding: the text-returning variant differs from the lossy UTF-8 decoding of the bytes");
+        let gb = got.as_bytes();
+        let wb = want.as_bytes();
+        assert!(gb.len() == wb.len(), "C02/text-is-lossy-decoding: the text-returning variant differs in length from the lossy UTF-8 decoding of the bytes");
+        let mut i = 0;
+        while i < 12 {
+            if i < gb.len() && i < wb.len() {
+                assert!(gb[i] == wb[i], "C02/text-is-lossy-decoding: the text-returning variant differs from the lossy UTF-8 decoding of the bytes");
+            }
+            i += 1;
+        }
+        std::mem::forget((got, want));
+    }
+
+    #[kani::proof]
+    fn h_utf8_lossy_2() {
+        utf8_case(2)
+    }
+    #[kani::proof]
+    fn h_utf8_lossy_3() {
+        utf8_case(3)
+    }
+    #[kani::proof]
+    fn h_utf8_lossy_4() {
+        utf8_case(4)
     }
 }
